@@ -29,11 +29,17 @@ func runC16(r *mon.Run) {
 		"c16:rcv-in-inputs", "c16:rcv-multiple", "c16:sum=inf", "c16:partial-inf", "c16:rep-nontrivial", "c16:same-object-twice"} {
 		r.Require(c)
 	}
+	r.Require("c16:len>=31:around-2^k")
 	r.Each("c16/multi", r.N(1500, 50000), func(w *mon.W, i int) {
 		rng := w.Rng
 		l := i % 13
 		if i%17 == 0 {
 			l = 13 + rng.Intn(28)
+		}
+		if i%97 == 5 {
+			// long lists around powers of two (chunked / batched implementations split there)
+			l = []int{31, 32, 33, 63, 64, 65, 127, 128, 129, 130, 255, 256, 257, 300}[(i/97)%14]
+			w.Class("c16:len>=31:around-2^k")
 		}
 		if l >= 13 {
 			w.Class("c16:len>=13")
@@ -62,6 +68,15 @@ func runC16(r *mon.Run) {
 				switch rng.Intn(6) {
 				case 0:
 					pv[b] = pv[a]
+					if rng.Chance(1, 3) {
+						// the generator itself more than once (batch verification has a G term per signature)
+						g := namedPt{"1G", oracle.G(), big.NewInt(1)}
+						pv[a], pv[b] = g, g
+						if l >= 3 && rng.Bool() {
+							pv[rng.Intn(l)] = g
+						}
+						w.Class("c16:G-repeated")
+					}
 					w.Class("c16:dup-point")
 				case 1:
 					pv[b] = namedPt{"-" + pv[a].Name, oracle.Neg(pv[a].P), negK(pv[a].K)}
